@@ -167,6 +167,42 @@ class CallMixin:
             return
         if ty == "hashalg":
             raise Unsupported("hash algorithm attribute call")
+        if ty is None and o.e is not None and attr in ("_get_field", "__setdefault__"):
+            # private protocol methods exist only on /repo classes: anything else raises AttributeError
+            owner = {"_get_field": "Config", "__setdefault__": "BaseField"}[attr]
+            isc = self.o.is_type(o.e, "ref:" + owner)
+            br = st.clone()
+            br.assume(isc)
+            if self.o.feasible(br):
+                yield from self.call_method(br, SV(o.e, "ref:" + owner), None if owner == "BaseField" else owner, attr, args, kwargs, cx)
+            rest = st.clone()
+            rest.assume(z3.Not(isc))
+            if self.o.feasible(rest):
+                yield from self.raise_new(rest, "AttributeError")
+            return
+        if ty is None and o.e is not None and attr in ("__getitem__", "__setitem__", "__contains__"):
+            # dynamic receiver of a Config protocol method: a configuration, or any other object (whose method is
+            # opaque: arbitrary result or exception, no effect on library state - or AttributeError)
+            isc = self.o.is_type(o.e, "ref:Config")
+            br = st.clone()
+            br.assume(isc)
+            if self.o.feasible(br):
+                yield from self.call_method(br, SV(o.e, "ref:Config"), "Config", attr, args, kwargs, cx)
+            rest = st.clone()
+            rest.assume(z3.Not(isc))
+            if self.o.feasible(rest):
+                a = rest.clone()
+                res = SV(self.w.freshV("opaque"))
+                a.assume(z3.Implies(self.w.V.is_ref(res.e), z3.And(self.w.V.r(res.e) > 0, self.w.V.r(res.e) <= a.alloc)))
+                if attr != "__setitem__":
+                    yield a, res
+                b = rest.clone()
+                ec = self.w.fresh("exc", self.w.Cls)
+                b.alloc = b.alloc + 1
+                b.assume(self.w.subclass(ec, "Exception"))
+                b.assume(self.w.cls_of(b.alloc) == ec)
+                yield b, Raise(ec, self.w.V.ref(b.alloc))
+            return
         raise Unsupported("method %s on %s" % (attr, ty))
 
     # ------------------------------------------------------------------ methods on references
